@@ -93,6 +93,12 @@ func scenariosC04(rng *rand.Rand, thorough bool) []Scenario {
 	// false checkpoint, true filter headers: the client can tell nobody apart and never gets past it
 	add(Scenario{Name: "liarCFCheckpt-only", Len: 1000 + L(), Barrier: true, Deadline: 4 * time.Second, Script: []Event{sleep(300)},
 		Peers: []Behaviour{honest(), {Kind: "liarCFCheckpt", H: 0, Variant: "only"}}})
+	if os.Getenv("NETSIM_SLOW") != "" {
+		add(Scenario{Name: "silent-first", Len: L(), Deadline: 130 * time.Second, Script: []Event{sleep(500), grow(1)},
+			Peers: []Behaviour{{Kind: "silent"}, honest()}})
+		add(Scenario{Name: "emptyHeaders-first", Len: L(), Deadline: 130 * time.Second, Script: []Event{sleep(500), grow(1)},
+			Peers: []Behaviour{{Kind: "emptyHeaders"}, honest()}})
+	}
 	return out
 }
 
@@ -117,7 +123,7 @@ func DriveC04(t *tr.W, thorough bool) {
 // RunScenario runs one scenario as one trace case.
 func RunScenario(t *tr.W, sc Scenario, rng *rand.Rand) *Sim {
 	t0 := time.Now()
-	t.Case("%s len %d npeers %d", sc.Name, sc.Len, len(sc.Peers))
+	t.Case("c04 %s len %d npeers %d", sc.Name, sc.Len, len(sc.Peers))
 	s, err := New(sc, rng, t.Op)
 	if err != nil {
 		t.Op("setup", "err "+err.Error())
